@@ -713,6 +713,8 @@ def gen_stop(rng, p_cancel=0.3, **_):
     main.append(['sleep', rng.choice([0, 0, 1 / 64, 3 / 64, 9 / 64, 40 / 64]) if not inline else rng.choice([1 / 64, 2 / 64, 3 / 64, 5 / 64, 9 / 64])])
     cancelled = rng.random() < p_cancel
     if cancelled:
+        if rng.random() < 0.25 and not inline:
+            main.pop()                      # no suspension since the dispatches: the run-loop task is cancelled before its first step
         main.append(['cancelrl', 0])
     else:
         main.append(['stop', 0, rng.random() < 0.2])
